@@ -349,6 +349,11 @@ pub fn replay(case: &Value) -> Vec<Violation> {
         }
         return vec![];
     }
+    if let Some(p) = case.get("preexisting") {
+        let g = |k: &str| p[k].as_u64().unwrap_or(0) as usize;
+        let b = |k: &str| p[k].as_bool().unwrap_or(false);
+        return preexisting_case(g("name"), g("content"), b("zod"), b("force"), b("build")).into_iter().collect();
+    }
     if let Some(p) = case.get("position") {
         let g = |k: &str| p[k].as_u64().unwrap_or(0) as usize;
         return position_case(g("text"), g("n_valid"), g("slot"), g("name"), p["zod"].as_bool().unwrap_or(false)).0.into_iter().collect();
@@ -415,6 +420,49 @@ pub fn position_case(text: usize, n_valid: usize, slot: usize, name: usize, zod:
         return (Some(fam(Violation::new("C15", "bad-file-not-isolated", format!("{}: the output differs from the output of the valid files alone ({})", label, r.status_string()), replay))), after);
     }
     (None, after)
+}
+
+pub const PRE_NAMES: [&str; 6] = ["types.ts", "commands.ts", "events.ts", "index.ts", ".typecache", "dependency-graph.txt"];
+pub fn pre_contents() -> Vec<(&'static str, String)> {
+    vec![
+        ("empty", String::new()),
+        ("placeholder", "export {};\n".to_string()),
+        ("two-byte text", "é".repeat(400)),
+        ("three-byte text", "漢".repeat(300)),
+        ("four-byte text", "😀".repeat(200)),
+        ("one line", format!("// {}\n", "x".repeat(900))),
+    ]
+}
+
+/// The output directory already holds a file called like a generated one, with content the tool
+/// never wrote (empty, a placeholder, multi-byte text of any phase): real binary or build path,
+/// plain or forced. Whatever it does with the file, it must not panic.
+pub fn preexisting_case(name: usize, content: usize, zod: bool, force: bool, build: bool) -> Option<Violation> {
+    use crate::sbx::{self, FileCfg, RunOpts, Seam};
+    let sb = Sandbox::new();
+    let project = Project::single(format!("{}use tauri::{{AppHandle, Emitter}};\n#[derive(Clone, Serialize, Deserialize)]\npub struct Solid {{ pub a: i32 }}\n#[tauri::command]\npub fn solid(s: Solid) -> Solid {{ s }}\npub fn tell(app: &AppHandle, s: Solid) {{ app.emit(\"told\", s).unwrap(); }}\n", gen::PRELUDE));
+    let cfg = FileCfg { zod, visualize_deps: true, ..Default::default() };
+    sbx::write_sources(&sb.root, &project, &cfg);
+    let od = sbx::out_dir(&sb.root, &cfg);
+    let _ = std::fs::create_dir_all(&od);
+    let (label, text) = pre_contents().swap_remove(content % pre_contents().len());
+    let fname = PRE_NAMES[name % PRE_NAMES.len()];
+    let _ = std::fs::write(od.join(fname), &text);
+    let seam = if build { Seam::Build } else { Seam::Cli };
+    let r = sbx::run_generate(&sb.root, seam, &RunOpts { force_flag: force, ..Default::default() });
+    if matches!(r.code, Some(0) | Some(1)) && r.signal.is_none() {
+        return None;
+    }
+    Some(
+        Violation::new(
+            "C15",
+            "panic",
+            format!("output directory already holds {} ({}, {} bytes), {} mode, {}{}: {} {}", fname, label, text.len(), if zod { "zod" } else { "none" }, seam.name(), if force { " --force" } else { "" }, r.status_string(), r.stderr.lines().find(|l| l.contains("panicked")).unwrap_or("").trim()),
+            json!({"preexisting": {"name": name, "content": content, "zod": zod, "force": force, "build": build}}),
+        )
+        .field("family", "pre-existing-output-file")
+        .field("file", fname.to_string()),
+    )
 }
 
 /// a reference cycle of `n` serde types through the real binary (unbounded recursion would abort)
@@ -737,6 +785,22 @@ pub fn run(tier: Tier) -> CheckResult {
     let bad_after_valid = pres.iter().filter(|(_, a)| *a).count() as u64;
     let bad_before_all = pres.len() as u64 - bad_after_valid;
     all_v.extend(pres.into_iter().filter_map(|(v, _)| v));
+    // a file called like a generated one is already there, with content the tool never wrote
+    let mut pre: Vec<(usize, usize, bool, bool, bool)> = vec![];
+    for name in 0..PRE_NAMES.len() {
+        for content in 0..pre_contents().len() {
+            for zod in [false, true] {
+                for force in [false, true] {
+                    for build in [false, true] {
+                        pre.push((name, content, zod, force, build));
+                    }
+                }
+            }
+        }
+    }
+    let preres: Vec<Option<Violation>> = pre.par_iter().map(|(n, c, z, f, b)| if deadline.passed() { None } else { preexisting_case(*n, *c, *z, *f, *b) }).collect();
+    subprocess_runs += pre.len() as u64;
+    all_v.extend(preres.into_iter().flatten());
     // reference cycles of 1..6 serde types, with and without the dependency visualisation, through
     // the real binary (unbounded recursion would abort the process)
     let cyc: Vec<(usize, bool, &str)> = (1..=6usize).flat_map(|n| [(n, false, "none"), (n, true, "none"), (n, true, "zod")]).collect();
@@ -828,7 +892,7 @@ pub fn run(tier: Tier) -> CheckResult {
         {"TypeVariant": {"ty": "for<'a> fn(&'a str) -> &'a str", "site": "event", "depth": 5}},
         {"corpus": "/repo/src/analysis/mod.rs"}
     ]));
-    res.coverage.set("rule", format!("(i) every string of <= {} letters over a 21-letter alphabet (ASCII, space, 2/3/4-byte characters, escaped quote, escaped backslash, parentheses, comma, '=', and the words the scanners look for) injected at 9 attribute-string positions; 40 raw attribute token forms (empty, missing values, non-literal values, duplicates, raw strings, cfg_attr) on fields, structs, variants, parameters and fns; (ii) 14 odd identifiers in 8 roles; (iii) 40 exotic syn::Type forms (incl. path segments with identifier characters that are neither letters nor digits) at the five sites wrapped to depth 0..5 in process, four non-ASCII project type names at every constructor position (map key / value, each tuple element, set element, Result arms, nested once more) of the five sites, every event name of <= 3 characters over letters, digits and the separators (adjacent, leading and trailing separators included), every arity 0..4 of emit / emit_to / emit_filter x 3 forms of the name argument x 5 receiver forms, nesting depth up to {} in a subprocess; an item-shape zoo (tuple/unit/generic structs, data-carrying and tagged enums, unions, trait and impl methods, pattern parameters, qualifiers, emit calls of every arity and payload expression); (iv) every .rs file under /repo{} as single-file projects through the real binary (batched, bisected on exit status outside {{0,1}}), every line-boundary truncation of tests/fixtures next to a valid file; unparsable files whose offending line holds 0..120 characters of 2 / 3 / 4 bytes before the error and 0 / 40 / 100 after it; four unparsable texts under four file names created before, between and after 1..3 valid files that each hold a command with a channel and an emitting function (the directory order is read back: both 'walked first' and 'walked after a valid file' must occur); reference cycles of 1..6 serde types with and without the dependency visualisation through the real binary; oracle: no panic (in process: catch_unwind, re-confirmed through the binary), exit status in {{0,1}}, and an unparsable file leaves the output of the valid file unchanged.", 3, if tier == Tier::Quick { 256 } else { 2000 }, if tier == Tier::Thorough { " and every .rs file in ~/.cargo/registry/src" } else { "" }));
+    res.coverage.set("rule", format!("(i) every string of <= {} letters over a 21-letter alphabet (ASCII, space, 2/3/4-byte characters, escaped quote, escaped backslash, parentheses, comma, '=', and the words the scanners look for) injected at 9 attribute-string positions; 40 raw attribute token forms (empty, missing values, non-literal values, duplicates, raw strings, cfg_attr) on fields, structs, variants, parameters and fns; (ii) 14 odd identifiers in 8 roles; (iii) 40 exotic syn::Type forms (incl. path segments with identifier characters that are neither letters nor digits) at the five sites wrapped to depth 0..5 in process, four non-ASCII project type names at every constructor position (map key / value, each tuple element, set element, Result arms, nested once more) of the five sites, every event name of <= 3 characters over letters, digits and the separators (adjacent, leading and trailing separators included), every arity 0..4 of emit / emit_to / emit_filter x 3 forms of the name argument x 5 receiver forms, nesting depth up to {} in a subprocess; an item-shape zoo (tuple/unit/generic structs, data-carrying and tagged enums, unions, trait and impl methods, pattern parameters, qualifiers, emit calls of every arity and payload expression); (iv) every .rs file under /repo{} as single-file projects through the real binary (batched, bisected on exit status outside {{0,1}}), every line-boundary truncation of tests/fixtures next to a valid file; unparsable files whose offending line holds 0..120 characters of 2 / 3 / 4 bytes before the error and 0 / 40 / 100 after it; six kinds of foreign content (empty, a placeholder, 2/3/4-byte text, one long line) already sitting in the output directory under each generated file's name, plain and forced, binary and build path; four unparsable texts under four file names created before, between and after 1..3 valid files that each hold a command with a channel and an emitting function (the directory order is read back: both 'walked first' and 'walked after a valid file' must occur); reference cycles of 1..6 serde types with and without the dependency visualisation through the real binary; oracle: no panic (in process: catch_unwind, re-confirmed through the binary), exit status in {{0,1}}, and an unparsable file leaves the output of the valid file unchanged.", 3, if tier == Tier::Quick { 256 } else { 2000 }, if tier == Tier::Thorough { " and every .rs file in ~/.cargo/registry/src" } else { "" }));
     res.assumptions = vec!["totality is claimed only over these finite sets".into()];
     res
 }
